@@ -147,7 +147,8 @@ CHECKS["C20"] = {
             "failure an error by the deadline or the end of the attempt in flight, attempts <= K",
     "bounds": {"attempts": "K = 6 quick, 12 thorough (unwinding assertion; Timeout <= (K-2)*min(4s, MaxRetryDelay))", "MaxRetryDelay": "> 0"},
     "outside": ["MaxRetryDelay <= 0 (busy loop / probabilistic termination: the statement's two requirements contradict each other there)",
-                "wall-clock behaviour of the real runtime and scheduler", "delay doubling overflow (needs > 2^32 s of waiting)"],
+                "wall-clock behaviour of the real runtime and scheduler", "delay doubling overflow (needs > 2^32 s of waiting)",
+                "behaviour after more than K consecutive failures (seeded change C20B needs 33 and passes)"],
     "assumptions": ["Go select semantics: blocks until a case is ready, picks any ready case (model)", "context.WithTimeout's Done channel fires at the deadline (model)"],
 }
 
@@ -203,7 +204,8 @@ CHECKS["C03"] = {
             "Signing' issued by it, signer path-valid to the configured roots at its own time, CertSig(signer key, raw member, signature), "
             "TDX/3 resp. TD_QE/2 and non-empty levels of the SIGNED member, and the C04 / C07 reference verdicts evaluated on the SIGNED member",
     "bounds": {"tcb_levels": "0..1 quick, 2 thorough", "module_identities": "0..1", "qe_levels": "1", "header_shapes": "missing / no value / two values / empty / undecodable / nil map"},
-    "outside": ["JSON grammar; what exactly encoding/json accepts as a duplicate key (no relation between decoding the body and decoding its member is assumed)"],
+    "outside": ["JSON grammar; what exactly encoding/json accepts as a duplicate key (no relation between decoding the body and decoding its member is assumed)",
+                "encoding/json's merge semantics when decoding into a non-empty struct (the stub overwrites the whole target; seeded change C03A passes)"],
     "assumptions": PKI_ASSUME + ["encoding/json.Unmarshal is a deterministic function of (document, target type)", "url.QueryUnescape / hex.DecodeString deterministic functions of the string"],
 }
 
@@ -264,6 +266,8 @@ CHECKS["C11"] = {
             "contents, QE auth data lengths {0,32,64} (thorough: 1, 200), symbolic-length extra bytes; asserted: err == nil",
     "bounds": {"tcb_levels": "2", "module_identities": "1", "qe_levels": "2", "distribution_points": "2", "qe_auth_data": "{0,32,64} quick, +{1,200} thorough"},
     "outside": ["acceptance of Intel's sample quote under real cryptography (a concrete run the repository's tests already do)",
+                "DER minimality of the r/s integers handed to crypto/ecdsa (the DER blob is abstract; seeded change C11A ends inconclusive)",
+                "formatting of symbolic integers with fmt verbs other than %s/%v (opaque; seeded change C11B ends inconclusive)",
                 "Processor-CA intermediates (rejected by the fixed name check; recorded as a modelling decision, not claimed either way)"],
     "assumptions": PKI_ASSUME,
 }
